@@ -1,5 +1,5 @@
 #!/usr/bin/env python3
-"""tools/confirm_seeded.py <Cxx> [<Cyy> ...]
+"""tools/confirm_seeded.py <Cxx|Cxx_r2> [...]
 For each /tmp/sfwt/<Cxx>.out/{patch_a.diff,patch_b.diff,demo_*.py,meta.json}: in a scratch copy of /repo HEAD (under /var/tmp), confirm
  (1) the patch applies, (2) the demo passes without and fails with the patch, (3) the baseline stable set still passes with the patch.
 Confirmed mutants are stored as /verif/seeded/<Cxx><a|b>/{patch.diff, demo.py, meta.json}. The scratch copy is removed."""
@@ -14,14 +14,15 @@ def demo(repo, path):
     r = run(['/venv/bin/python', path], cwd=repo, env=env, timeout=600)
     return r.returncode, r.stdout[-600:]
 
-for pid in sys.argv[1:]:
-    out = f'/tmp/sfwt/{pid}.out'
+for arg in sys.argv[1:]:
+    pid = arg.split('_')[0]          # C02 or C02_r2 (second round: patch_c / patch_d)
+    out = f'/tmp/sfwt/{arg}.out'
     meta_all = []
     try:
         meta_all = json.load(open(os.path.join(out, 'meta.json')))
     except Exception as e:
         print(pid, 'no meta.json', e)
-    for letter in 'ab':
+    for letter in 'abcd':
         patch = os.path.join(out, f'patch_{letter}.diff')
         dem = os.path.join(out, f'demo_{letter}.py')
         if not (os.path.exists(patch) and os.path.exists(dem)):
